@@ -42,12 +42,6 @@ def leafSpec : Leaf → V → Option Verdict
       | .raised _ => none
       | r => some r
 
-/-- is there a one-to-one assignment of the values (rows of `matrix`: which matchers accept the value)
-to the matcher indices `rem`, using every index?  Tries every choice. -/
-def assignB : List (List Bool) → List Nat → Bool
-  | [], rem => rem.isEmpty
-  | row :: rows, rem => rem.any fun i => row.getD i false && assignB rows (rem.erase i)
-
 def allSome {α : Type} : List (Option α) → Option (List α)
   | [] => some []
   | some a :: rs => (allSome rs).map (a :: ·)
@@ -115,51 +109,6 @@ def specZip : List M → List (Option V) → List (Option Verdict)
   | _, _ => []
 end
 
-/-! ## finding class D5 `ambiguousSetwise`: some `MatchesSetwise` node is reached with a value that
-(by the documented semantics) matches two or more of its matchers -/
-def matchCount (rs : List (Option Verdict)) : Nat := (rs.filter fun r => r == some Verdict.match).length
-
-mutual
-def amb : M → V → Bool
-  | .leaf _, _ => false
-  | .excTypeV cs vm, v => match v with
-      | .exc e true => excTypeMatches cs e && amb vm (.exc e false)
-      | _ => false
-  | .raises em, v => match callV v with
-      | .inl _ => false
-      | .inr e => amb em (.exc e true)
-  | .not m, v => amb m v
-  | .all _ ms, v => ambRow ms v
-  | .any ms, v => ambRow ms v
-  | .allMatch m, v => match pyIter v with
-      | none => false
-      | some xs => xs.any (amb m)
-  | .anyMatch m, v => match pyIter v with
-      | none => false
-      | some xs => xs.any (amb m)
-  | .listwise _ ms, v => match pyIter v with
-      | none => false
-      | some xs => ambZip ms (xs.map some)
-  | .setwise _ _ ms, v => match pyIter v with
-      | none => false
-      | some xs => xs.any fun x => decide (2 ≤ matchCount (specRow ms x)) || ambRow ms x
-  | .structure attrs ms, v => ambZip ms (attrs.map (getAttr v))
-  | .dict _ ks ms, v => match v with
-      | .dict oks ovs => ambZip ms (ks.map fun k => lookupKey k oks ovs)
-      | _ => false
-  | .annotate m, v => amb m v
-  | .after f _ m, v => match applyPre f v with
-      | .ok w => amb m w
-      | .error _ => false
-def ambRow : List M → V → Bool
-  | [], _ => false
-  | m :: ms, v => amb m v || ambRow ms v
-def ambZip : List M → List (Option V) → Bool
-  | m :: ms, some v :: vs => amb m v || ambZip ms vs
-  | _ :: ms, none :: vs => ambZip ms vs
-  | _, _ => false
-end
-
 /-! ## clauses over the observed trace -/
 def cSound (i : Input) (t : Trace) : Bool :=
   match spec i.m i.v with
@@ -173,7 +122,5 @@ def clauses : List (String × (Input → Trace → Bool)) :=
   [("sound", cSound), ("deterministic", cDeterministic), ("pure", cPure)]
 
 def holds (i : Input) (t : Trace) : Bool := clauses.all fun c => c.2 i t
-
-def classes (i : Input) : List String := if amb i.m i.v then ["ambiguousSetwise"] else []
 
 end TTV.Spec.C06
